@@ -49,26 +49,28 @@ def c08(ctx):
         "Rot": ctx.seed % 6,
         "Crafts": True,
         "LinkRing": 4 if q else 8,
+        "ReuseLen": 4 if q else 5,
     }
     # one TLC run: meta-properties of the verdict relation on every reachable signature record
     # (MetaAll, TamperMonotone, LinkSound) and generation of every behaviour Sign;Tamper*;Verify
     bh, _ = _collect(ctx, "SigVerify",
-                     cfg(constants=consts, invariants=["TypeOK", "MetaAll", "LinkSound", "Emit"], properties=["TamperMonotone"]),
+                     cfg(constants=consts, invariants=["TypeOK", "MetaAll", "LinkSound", "ReuseSound", "Emit"], properties=["TamperMonotone"]),
                      "C08_gen")
-    res = ctx.run_vh("c08", ["-in", bh, "-max", 0 if q else 60000, "-maxslow", 80 if q else 1500], binary=ctx.build(pkg=PKG))
+    res = ctx.run_vh("c08", ["-in", bh, "-max", 0 if q else 60000, "-maxslow", 80 if q else 1500, "-bindings", 6 if q else 2], binary=ctx.build(pkg=PKG))
     oc = (res.get("extra") or {}).get("outcomes", {})
-    _need(oc, ["verdict:accept:accept", "verdict:reject:reject", "verdict:free:", "link:equal", "link:different"], "C08")
+    _need(oc, ["verdict:accept:accept", "verdict:reject:reject", "verdict:free:", "link:equal", "link:different", "reuse:accept:accept", "reuse:reject:reject"], "C08")
     if not q:
         # larger abstract space without generation: three manipulations / deviating arguments per behaviour
-        big = dict(consts, MaxDist=3, MlAllUpTo=0, LinkRing=0, MaxRing=5)
+        big = dict(consts, MaxDist=3, MlAllUpTo=0, LinkRing=0, MaxRing=5, ReuseLen=0)
         ctx.tlc("SigVerify", cfg(constants=big, invariants=["TypeOK", "MetaAll"], properties=["TamperMonotone"], view="View"), name="C08_mc3")
     return ctx.finish(
         "model_checking",
         "case = (scheme in {schnorr x 20 group instances, schnorr on edwards25519, eddsa, ring on edwards25519, ring on P-256} x ring size 1..8 x signer position x link scope? x message length in {0,1,63,64,65,4096} x honest | crafted Ed25519 small-order/non-canonical construction x set of byte-level manipulations x deviating Verify argument x verifier entry point); "
         "TLC enumerates every case with at most %d manipulations/deviations, predicts accept/reject/free and checks Total, AcceptImpliesUntouched, HonestAccepted, FreedomExplicit, StrictNoSecondEncoding, TamperMonotone, LinkSound on all of them; each case is executed on the real verifier; distinct = (configuration, behaviour); "
-        "EdDSA additionally: Sign bytes and public key equal crypto/ed25519 for the same seed, kyber accepts => crypto/ed25519 accepts; linkage tags equal <=> same key and scope" % consts["MaxDist"],
+        "EdDSA additionally: Sign bytes and public key equal crypto/ed25519 for the same seed, kyber accepts => crypto/ed25519 accepts; linkage tags equal <=> same key and scope; "
+        "object reuse: every sequence of %d calls (re-key in place / NewEdDSA / Sign / MarshalBinary / reload / Verify) on one EdDSA object and one schnorr Scheme object, every signature must be the one of the object's CURRENT key (byte-equal to crypto/ed25519)" % (consts["MaxDist"], consts["ReuseLen"]),
         ASSUME_SIG + [
-            "Ed25519 canonicity / small-order rejection is demanded at the entry points that promise it (eddsa.VerifyWithChecks, schnorr.VerifyWithChecks on edwards25519); on plain Verify and on other groups value-preserving re-encodings (S+kL, trailing bytes) and crafted small-order constructions are tagged free",
+            "Ed25519 canonicity / small-order rejection is demanded at every verifier entry point of the non-ring Ed25519 schemes (eddsa.Verify/VerifyWithChecks, schnorr.Verify/VerifyWithChecks/Scheme.Verify on edwards25519); only value-preserving re-encodings (S+kL, trailing byte) on other groups and in ring signatures are tagged free",
             "a non-canonical encoding of a point of large order cannot be constructed together with a satisfied group equation (needs a discrete log); non-canonical R / key cases are therefore small-order points in their alternative encodings",
         ],
         exhaustive=False)
@@ -77,7 +79,7 @@ def c08(ctx):
 # --------------------------------------------------------------------------- C09
 
 MT_CFG = cfg(spec="TraceSpec",
-             constants={"Modes": ["bdn"], "NMax": 2, "MaxExtra": 0, "MaxExtraBig": 0, "Rot": 0, "BuggyDup": False, "NSSet": [1], "MaxOps": 0, "MaxOpsBig": 0, "MaxProbes": 0},
+             constants={"Modes": ["bdn"], "NMax": 2, "MaxExtra": 0, "MaxExtraBig": 0, "Rot": 0, "BuggyDup": False, "NSSet": [1], "MaxOps": 0, "MaxOpsBig": 0, "MaxProbes": 0, "BufLen": 0},
              constraint="Mark", postcondition="TraceAccepted")
 
 
@@ -129,7 +131,7 @@ def c09(ctx):
     q = ctx.quick
     binary = ctx.build(pkg=PKG)
     consts = {
-        "Modes": ["bls", "tbls", "bdn", "cosi"],
+        "Modes": ["bls", "tbls", "bdn", "cosi", "buf"],
         "NMax": 4 if q else 5,
         "MaxExtra": 1 if q else 2,
         "MaxExtraBig": 1,
@@ -139,6 +141,7 @@ def c09(ctx):
         "MaxOps": 2,
         "MaxOpsBig": 1 if q else 2,
         "MaxProbes": 1 if q else 2,
+        "BufLen": 4 if q else 5,
     }
     # code -> spec in a background thread (TLC start-up dominates; it overlaps with the generator run)
     err = []
@@ -162,7 +165,9 @@ def c09(ctx):
         raise err[0]
     oc = (res.get("extra") or {}).get("outcomes", {})
     _need(oc, ["bls:accept:accept", "bls:reject:reject", "tbls:sig:sig", "tbls:error:error", "bdn:same:accept:accept",
-               "bdn:add:reject:reject", "bdn:msg:reject:reject", "cosi:accept:accept", "cosi:reject:reject"], "C09")
+               "bdn:add:reject:reject", "bdn:msg:reject:reject", "cosi:accept:accept", "cosi:reject:reject",
+               "buf:BufVerify:accept:accept", "buf:BufVerify:reject:reject", "buf:BufRecover:sig:sig", "buf:BufRecover:error:error",
+               "buf:BufBdnVerify:accept:accept", "buf:BufBdnVerify:reject:reject"], "C09")
     if not q:
         # the whole list space without the junk/duplicate bound, model only (RecoverIffEnoughValid, TblsMeta)
         full = dict(consts, Modes=["tbls"], MaxExtra=6, MaxExtraBig=3, NMax=5)
@@ -194,7 +199,8 @@ def c09(ctx):
         "tbls: every (n, t) with 2<=t<=n<=%d and every list of partials of length <= n+2 over {valid(i)} + one junk letter per position (kinds invalid / wrong message / relabelled index / garbage / short / empty rotate) with at most %d junk+duplicate entries, Recover ok <=> >= t distinct valid indices, recovered bytes = signature of the group secret, VerifyPartial per entry; exhaustive on 2 combinations chosen by the seed, sampled on the other 6; "
         "bdn: mask objects as bitsets, constructor with/without own key, every sequence of <= %d SetBit/SetMask/Merge/Clone calls (all subsets as arguments, out-of-range indices, wrong lengths) for 4 signers and a menu for 10 signers, projection after every call, aggregate key a function of the bits, Verify <=> same mask and message (pairing level on a quota); "
         "cosi: the same mask machine with AggregatePublic = sum of enabled keys after every call, then sign with the participants and verify under 13 manipulations x policies; "
-        "distinct = (configuration, behaviour); recorded direction: random call sequences on real bdn/cosi masks validated by TLC against MaskTrace" % (consts["NMax"], consts["MaxExtra"], consts["MaxOps"]),
+        "buf: long-lived bls/tbls/bdn scheme objects and one caller-owned message buffer overwritten in place (two same-length contents, one of another length, restored), every sequence of %d Write / Sign / Verify / tbls partials / Recover / bdn Sign / Aggregate+Verify calls, each verdict and each signature determined by the buffer contents at call time, caller slices unmodified; "
+        "distinct = (configuration, behaviour); recorded direction: random call sequences on real bdn/cosi masks validated by TLC against MaskTrace" % (consts["NMax"], consts["MaxExtra"], consts["MaxOps"], consts["BufLen"]),
         ASSUME_SIG[:1] + [
             "junk partials are built to be invalid (signed with an unrelated scalar / for another message / relabelled / random bytes / truncated); that a random scalar differs from the share is assumed",
             "the empty BDN aggregate (identity signature under the identity key) is tagged free; trailing bytes after a BLS point, r+L and padding bits of a CoSi mask are value-preserving and tagged free",
